@@ -126,7 +126,7 @@ pub fn all() -> Vec<Check> {
             id: "C15",
             props: c15::props,
             describe: c15::describe,
-            sweeps: None,
+            sweeps: Some(c15::sweeps),
         },
         Check {
             id: "C16",
